@@ -4,7 +4,7 @@ from ..core.davsys import Config
 from . import e1common
 
 ASSUME = [
-    "UID alphabet: u1 (two summaries), U1 (case), 'u 1' (space), 'u\\\\,1' (escaped comma), u2, an object whose first component is a VTIMEZONE, objects without UID",
+    "UID alphabet: an 89-character UID (its stored line is folded) in two versions and its 70-character prefix; u1 (two summaries), U1 (case), 'u 1' (space), 'u\\\\,1' (escaped comma), u2, an object whose first component is a VTIMEZONE, objects without UID",
     "UID of a resource = unescaped value of the UID line of the first sub-component that has one (independent content-line reader)",
     "the store caches (uid maps) are part of the state key, so histories that differ only in cache staleness are distinct states",
 ]
@@ -13,10 +13,10 @@ ASSUME = [
 def configs(tier):
     if tier == "quick":
         names = ("a.ics", "b.ics")
-        bods = ("U1a", "U1b", "UC", "U2", "TZ1")
+        bods = ("U1a", "U1b", "UC", "U2", "TZ1", "UL1a", "UL1b")
     else:
         names = ("a.ics", "b.ics", "c.ics")
-        bods = ("U1a", "U1b", "UC", "USP", "UESC", "U2", "TZ1", "NOUID", "NOUID2")
+        bods = ("U1a", "U1b", "UC", "USP", "UESC", "U2", "TZ1", "NOUID", "NOUID2", "UL1a", "UL1b", "ULP")
     out = [
         e1common.StoreCfg(kinds=("tree", "bare", "mem", "vdir"), names=names, bodies=bods, oracles={"C06"}, features={"restart"}),
         Config(front="wsgi", backend="tree", prefix="/", names={"cal": list(names[:2]), "ab": [], "c2": []}, bodies={"cal": list(bods[:5]), "ab": [], "c2": []},
